@@ -81,7 +81,7 @@ def venn_call(case, chunk=None):
     from ibldsp import spiketrains
     n = len(case["trains"])
     # representation varies with the case: the result must not depend on the integer / float dtype
-    sdt, cdt = VENN_DTYPES[(len(case["trains"][0]) + case["chunk"] + case["nchan"]) % len(VENN_DTYPES)]
+    sdt, cdt = VENN_DTYPES[(len(case["trains"][0]) + int(case["chunk"]) + case["nchan"]) % len(VENN_DTYPES)]
     st = tuple(np.array([s for s, _ in t], dtype=sdt) for t in case["trains"])
     ct = tuple(np.array([c for _, c in t], dtype=cdt) for t in case["trains"])
     fn = spiketrains.spikes_venn2 if n == 2 else spiketrains.spikes_venn3
@@ -736,6 +736,72 @@ def _run(ctx):
         if len(samples) < 2 and nch > 1:
             samples.append({"fn": desc["fn"], "chunk": case["chunk"], "xbin": case["xbin"],
                             "n_spikes": [len(t) for t in case["trains"]], "result": res})
+    # ---- NON-INTEGER chunk sizes: chunk k covers [k c, (k+1) c).  Dyadic fractions (k c and k c + c exact in
+    # binary64) with spikes on every boundary sample floor(k c) and ceil(k c); the default chunk 20 * fs with a
+    # non-integer (dyadic) rate.  Model: venn_q on the rational cn / cd (run kind 11).
+    for k in range(240 if T else 60):
+        n = 2 + k % 2
+        cd = [2, 4, 8, 2][k % 4]
+        cn = rng.choice([m for m in range(cd + 1, 40 * cd) if m % 2 == 1])       # irreducible, c > 1
+        c = cn / cd
+        xbin = rng.choice([1, 2, 3])
+        ybin, nchan = rng.choice([1, 2]), rng.choice([4, 8])
+        nchk = rng.randrange(2, 9)
+        bsamples = sorted({int(math.floor(j * c)) for j in range(1, nchk + 1)} | {int(math.ceil(j * c)) for j in range(1, nchk + 1)})
+        trains = []
+        for s_ in range(n):
+            sp = [(b, rng.randrange(0, nchan)) for b in bsamples if rng.random() < 0.8]
+            sp += [(rng.randrange(0, int(nchk * c) + 1), rng.randrange(0, nchan)) for _ in range(rng.randrange(0, 6))]
+            sp = sorted(sp or [(bsamples[0], 0)], key=lambda p: p[0])
+            trains.append(sp)
+        case = {"trains": trains, "xbin": xbin, "ybin": ybin, "nchan": nchan, "chunk": c, "fs": 30000}
+        desc = dict(case, fn="spikes_venn%d" % n, chunk_fraction=[cn, cd])
+        res = venn_call(case)
+        count("venn_float_chunk_cases")
+        if isinstance(res, tuple):
+            ctx.fail("spikes_venn: %s with the non-integer chunk size %s" % (res[1], c), desc, {"kind": "venn_exception"})
+            continue
+        for b in venn_oracle(case, res):
+            ctx.fail("venn (chunk size %s): %s" % (c, b), desc, {"kind": "venn_conservation"})
+        inp = [11, n, xbin, ybin, nchan, cn, cd]
+        for t in trains:
+            inp += [len(t)] + [a for a, _ in t] + [b_ for _, b_ in t]
+        add(inp, [1, len(res)] + res, desc)
+        nontrivial.add(("venn_q", cn, cd, json.dumps(trains)))
+    for fs_ in (2500.03125, 5000.125, 2500.5):
+        # default chunk 20 * fs and default bin int(0.4 * fs / 1000), spikes on the chunk boundaries
+        c = 20 * fs_
+        fr = Fraction(c)
+        bsamples = sorted({int(math.floor(j * c)) for j in (1, 2, 3)} | {int(math.ceil(j * c)) for j in (1, 2, 3)})
+        trains = [[(b, rng.randrange(0, 4)) for b in bsamples] + [(int(3.5 * c), 1)],
+                  [(b, rng.randrange(0, 4)) for b in bsamples[::2]] + [(int(3.5 * c) + 1, 1)]]
+        case = {"trains": trains, "xbin": 0, "ybin": 2, "nchan": 4, "chunk": 0, "fs": fs_}
+        desc = dict(case, fn="spikes_venn2", chunk_fraction=[fr.numerator, fr.denominator], default_chunk=True)
+        res = venn_call(case)
+        count("venn_float_chunk_cases")
+        if isinstance(res, tuple):
+            ctx.fail("spikes_venn: %s with fs = %s and the default chunk size" % (res[1], fs_), desc, {"kind": "venn_exception"})
+            continue
+        for b in venn_oracle(case, res):
+            ctx.fail("venn (default chunk, fs = %s): %s" % (fs_, b), desc, {"kind": "venn_conservation"})
+        inp = [11, 2, int(0.4 * fs_ / 1000), 2, 4, fr.numerator, fr.denominator]
+        for t in trains:
+            inp += [len(t)] + [a for a, _ in t] + [b_ for _, b_ in t]
+        add(inp, [1, len(res)] + res, desc)
+    # F-C20-d: non-dyadic float chunk sizes — fl(k c) + c != fl((k+1) c): a spike on the integer sample k c is counted
+    # twice or dropped.  Specific matcher; the exact rational model does not apply there.
+    for c, ksp in ((1.1, 20), (2.2, 15), (333.3, 10), (0.7, 20)):
+        s_ = int(round(c * ksp))
+        case = {"trains": [[(s_, 0)], [(s_, 0), (s_ + 40, 1)]], "xbin": 1, "ybin": 1, "nchan": 2, "chunk": c, "fs": 30000}
+        desc = dict(case, fn="spikes_venn2", non_dyadic_chunk=True)
+        res = venn_call(case)
+        count("venn_nondyadic_chunk_cases")
+        if isinstance(res, tuple):
+            ctx.fail("spikes_venn: %s with the chunk size %s" % (res[1], c), desc, {"kind": "venn_exception"})
+            continue
+        for b in venn_oracle(case, res):
+            ctx.fail("venn (non-dyadic chunk size %s, spike on sample %d = %d x chunk): %s" % (c, s_, ksp, b), desc,
+                     {"kind": "venn_float_chunk_rounding"})
     # realistic sizes (defaults; oracle only — the model would enumerate 5e6 bins per chunk)
     for k in range(6 if T else 2):
         n = 2 + k % 2
